@@ -257,23 +257,5 @@ func (r *reader) compatible(x *core.Explorer, hp *hdrPath, s *hdrState, stage in
 // one of the reader's anchor functions, so that extracting a helper (or
 // moving a statement into one) does not change what the path rules see.
 func (rd *reader) inl() func(*ssa.Function, int) bool {
-	anchors := map[*ssa.Function]bool{rd.advance: true, rd.read: true, rd.protoErr: true, rd.nextReader: true, rd.mrRead: true,
-		rd.maskBytes: true, rd.writeControl: true}
-	for _, n := range []string{"isValidReceivedCloseCode", "FormatCloseMessage", "(*Conn).writeFatal", "(*Conn).write", "newConn"} {
-		if f := rd.c.P.FuncOpt(n); f != nil {
-			anchors[f] = true
-		}
-	}
-	return func(f *ssa.Function, depth int) bool {
-		if f == rd.setRem {
-			return true
-		}
-		if anchors[f] || depth > 2 || len(f.Blocks) > 12 {
-			return false
-		}
-		if o := f.Object(); o != nil && o.Exported() {
-			return false
-		}
-		return true
-	}
+	return func(f *ssa.Function, depth int) bool { return f == rd.setRem }
 }
